@@ -304,24 +304,23 @@ set_option maxRecDepth 1000000 in
 every `$name` supplied, every variable bound) -/
 theorem wellformed_canonical : ∀ op ∈ ops, checkStmt (render canonEnv op.tpl) op.supplied = true := by decide +kernel
 
-/-- call sites whose statement has a dangling comma when a mapping argument is empty (known finding) -/
-def danglingCommaKeys : List Text := [t!"Neo4jCBMGraph.get_matching_nodes_with_components#0"]
-
 set_option maxRecDepth 1000000 in
 /-- EMPTY containers (empty props dict, empty merge_properties, component info without devices) and mappings without counted
 components: every variant that can run in such an environment (`reachable`: the branch conditions the translator could
-evaluate) still hands over a well-formed statement, except the listed one -/
-theorem wellformed_empty_containers_except_listed :
+evaluate) still hands over a well-formed statement -/
+theorem wellformed_empty_containers :
     ∀ op ∈ ops.filter (fun op => usesMaps op.tpl), ∀ e ∈ [emptyMapsEnv, propsOnlyEnv], op.reachable e = true →
-      (e = emptyMapsEnv → op.key ∉ danglingCommaKeys) → checkStmt (render e op.tpl) op.supplied = true := by decide +kernel
+      checkStmt (render e op.tpl) op.supplied = true := by decide +kernel
 
 set_option maxRecDepth 1000000 in
-/-- `get_matching_nodes_with_components(props={})`: the property list is appended after `GraphID: $graphId, `, leaving
-`{GraphID: $graphId,  }` -/
-theorem get_matching_nodes_empty_props_dangling_comma_counterexample :
+/-- `get_matching_nodes_with_components(props={})` (repaired: the separator travels with each property): the map is
+`{GraphID: $graphId }`, no dangling comma -/
+theorem get_matching_nodes_empty_props_wellformed :
     op_Neo4jCBMGraph_get_matching_nodes_with_components_s0_v0.reachable emptyMapsEnv = true ∧
+    render emptyMapsEnv op_Neo4jCBMGraph_get_matching_nodes_with_components_s0_v0.tpl =
+      t!"MATCH(n:GraphNode:X {GraphID: $graphId }) RETURN collect(n.NodeID) as candidate_ids" ∧
     (lint (render emptyMapsEnv op_Neo4jCBMGraph_get_matching_nodes_with_components_s0_v0.tpl)
-      op_Neo4jCBMGraph_get_matching_nodes_with_components_s0_v0.supplied).defects = ["dangling-comma"] := by decide +kernel
+      op_Neo4jCBMGraph_get_matching_nodes_with_components_s0_v0.supplied).defects = [] := by decide +kernel
 
 /-- … and for the value-free call sites that verdict holds for ALL stored values -/
 theorem wellformed_all_values_except_listed (op : Op) (hop : op ∈ ops) (hk : op.key ∉ valueDependentKeys)
